@@ -10,6 +10,10 @@ CHECKS = {
   technique='property-based testing (Hypothesis) against an explicit-loop overlap-weighted-mean reference + metamorphic relations (constant, bounds, linearity, permutation)',
   text='Generated native grids (smooth with implied widths, explicit non-overlapping bins with gaps), target grids with overlaps/gaps/out-of-range bins, 1-D/2-D spectra, errors and permutations of native and target points; FluxBinner compared bin by bin with a loop reference, SimpleBinner with the plain mean between mid-point edges, NativeBinner with identity; exploration level.',
   note='Native bin = centre +/- width/2 (mid-point widths when none are passed); errors only with 1-D spectra (no caller passes errors with 2-D optical depths); rtol 1e-10.'),
+ 'C08': dict(
+  technique='property-based testing (Hypothesis): inverse-CDF oracle (closed form / forward CDF via erfc), monotonicity, text-vs-constructed differential through create_prior and ParameterParser',
+  text='Generated priors of all four kinds (bounds in either order, magnitudes 1e-300..1e300, lin_* arguments), u including 0, 1 and extreme tails, prior strings from a grammar over the documented syntax, and default priors from (mode, bounds); each compared with closed-form inverse CDFs / erfc round trip and with the directly constructed object; exploration level.',
+  note='Equal bounds and overflowing ranges excluded; leading whitespace inside the quoted text excluded; scipy.stats is the code under test, math.erfc the oracle.'),
 }
 
 NOT_APPLICABLE = {}
